@@ -45,7 +45,7 @@ def gen_attach(r, tier):
 class C02(Prop):
     id = "C02"
     lean_modules = ["Fan2go.Props.C02"]
-    fact_modules = ["Fan2go.Props.Facts", "Fan2go.Props.Trans", "Fan2go.Props.Trans3A", "Fan2go.Props.Trans3B", "Fan2go.Props.Trans3Fan"]
+    fact_modules = ["Fan2go.Props.Facts", "Fan2go.Props.Trans", "Fan2go.Props.Trans3A", "Fan2go.Props.Trans3B", "Fan2go.Props.Trans3Fan", "Fan2go.Props.Trans3FileFan"]
     rule = ("ctrl-stall: neverStop fans (hwmon with configured or measured minimum, file, cmd) x all loops x event lists with "
             "stall episodes (RPM 0 while the request is unchanged) forced in most lists; ctrl: the general controller stream; ctrl-attach: "
             "limits installed from measured data on top of the 8 configuration combinations (w.attach), floor recomputed by the oracle. "
@@ -53,6 +53,7 @@ class C02(Prop):
     assumptions = ["limits inside the quantifier (0 <= min <= max <= 255); the floor is GetMinPwm() + raises so far"]
     streams = [Stream("ctrl-stall", gen_stall, parallel=8),
                Stream("ctrl", lambda r, tier: ctrl.gen_ctrl(r, tier, n_quick=300, n_thorough=8000), parallel=8),
+               Stream("ctrl-long", ctrl.gen_long_quiet, parallel=8),
                Stream("ctrl-attach", gen_attach, parallel=8)]
 
     def oracle_attach(self, ops, go):
